@@ -168,7 +168,7 @@ static std::string runHistory(ViewWorld& w, int nd, const json& base, const json
 static int modeT(int nd) {
     static ViewWorld* w = nullptr;
     Supervisor sup;
-    sup.timeoutSec = 10;
+    sup.timeoutSec = 180;   // generous: a batch of 32 histories takes milliseconds; only a real hang (or a badly overloaded machine) gets here
     sup.initChild = [&]() { XMLPlatformUtils::Initialize(); w = new ViewWorld(); };
     sup.handle = [&](const std::string& line, std::string& stat, bool& tainted) -> std::string {
         json j;
@@ -190,7 +190,7 @@ static int modeT(int nd) {
 static int modeW(int nd) {
     static ViewWorld* w = nullptr;
     Supervisor sup;
-    sup.timeoutSec = 20;
+    sup.timeoutSec = 180;
     sup.initChild = [&]() { XMLPlatformUtils::Initialize(); w = new ViewWorld(); };
     sup.handle = [&](const std::string& line, std::string& stat, bool& tainted) -> std::string {
         json j;
